@@ -1193,7 +1193,7 @@ const P_LOCK: [Step; 2] = [Step::F(0), Step::F(3)];
 
 /// Builds the concrete logical value of one abstract party (or of the predicted result).
 /// `lists` = the case kind varies list lengths / bsk (otherwise those components keep the base's).
-fn realise(base: &V, party: &J, b: &Binding, lists: bool) -> V {
+fn realise(base: &V, party: &J, b: &Binding, lists: bool, dummy_item: bool) -> V {
     let mut l = base.clone();
     for (slot, abs) in jmap(&party["opt"]) {
         let t = &b.opt[&slot];
@@ -1214,8 +1214,9 @@ fn realise(base: &V, party: &J, b: &Binding, lists: bool) -> V {
         truncate_list(&mut l, &P_TOUT, party["tout"].as_u64().unwrap());
         let act = party["act"].as_u64().unwrap();
         truncate_list(&mut l, &P_ACT, act);
-        if act != 2 {
-            // a shorter item list is an earlier stage with another value sum
+        if act != 2 && !dummy_item {
+            // a shorter item list is an earlier stage with another value sum -- unless the item that
+            // came later is a zero-valued dummy (`dummy_item`)
             *at_mut(&mut l, &P_OVS) = V::Rec(vec![V::U(12_345), V::U(0)]);
         }
         match party["bsk"].as_u64().unwrap() {
@@ -1282,7 +1283,7 @@ fn synthetic_parties(base_l: &V, case: &J, b: &Binding, alt_seed: usize, st: &mu
     let ps = case["ps"].as_array().unwrap();
     let mut parties = vec![];
     for (i, p) in ps.iter().enumerate() {
-        let l = realise(base_l, p, b, lists);
+        let l = realise(base_l, p, b, lists, alt_seed % 2 == 1);
         let bytes = party_bytes(&l, (alt_seed + i) % 3 == 0);
         match guarded(|| Pczt::parse(&bytes)) {
             Ok(Ok(p)) => parties.push(p),
@@ -1294,7 +1295,7 @@ fn synthetic_parties(base_l: &V, case: &J, b: &Binding, alt_seed: usize, st: &mu
     }
     let want_ok = case["out"]["ok"].as_bool().unwrap();
     let want = if want_ok {
-        let l = realise(base_l, &case["out"]["v"], b, lists);
+        let l = realise(base_l, &case["out"]["v"], b, lists, alt_seed % 2 == 1);
         let bytes = canonical_bytes(&l);
         st.joins_predicted += 1;
         st.results.insert(digest16(&bytes));
@@ -1602,7 +1603,7 @@ fn bindings_for(k: &str, idx: usize, base_name: &str, flat: &[Target], eq: &[Tar
         "flags3" | "listsT" => {
             if base_name == "transparent" { vec![Binding::default()] } else { vec![] }
         }
-        "listsO" => {
+        "listsO" | "listsO2" => {
             if matches!(base_name, "t2o" | "o2o" | "o2i_v6") { vec![Binding::default()] } else { vec![] }
         }
         _ => panic!("unknown case kind {k}"),
@@ -2788,13 +2789,24 @@ fn run_sequence(w: &mut NdjsonWriter, rng: &mut ChaCha20Rng, base: &Base, reds: 
     let mut copies: Vec<Pczt> = vec![base.pczt.clone(); ncopies];
     let mut proj: Vec<(J, V)> = vec![(post_j, post_l); ncopies];
     // copy 0 is the coordinator's: it is never redacted, so the final combination has everything
-    for _ in 0..steps {
+    // every other shielded sequence compacts one of the other copies at some point, and expands it later
+    let shielded_pool = if list_len(&proj[0].1, "orchard") > 0 { Some(Pool::Orchard) } else if list_len(&proj[0].1, "ironwood") > 0 { Some(Pool::Ironwood) } else { None };
+    let forced = if shielded_pool.is_some() && rng.gen_bool(0.5) { Some((rng.gen_range(0..steps), rng.gen_range(1..ncopies))) } else { None };
+    for step in 0..steps {
+        if let Some((at_step, c)) = forced {
+            if step == at_step {
+                apply_logged(w, base, reds, keys, &mut copies, &mut proj, c, &Op::Compact { pool: shielded_pool.unwrap() }, ops_log, stats)?;
+            }
+        }
         let me = rng.gen_range(0..ncopies);
         let mut op = pick_op(rng, base, reds, &proj[me].1, ncopies, me, keys);
         if me == 0 && matches!(op, Op::Redact { .. } | Op::Compact { .. }) {
             op = Op::Reparse;
         }
         apply_logged(w, base, reds, keys, &mut copies, &mut proj, me, &op, ops_log, stats)?;
+    }
+    if let Some((_, c)) = forced {
+        apply_logged(w, base, reds, keys, &mut copies, &mut proj, c, &Op::Resolve, ops_log, stats)?;
     }
     // closing: bring everything into copy 0, complete the signatures, finalise, extract
     let mut closing: Vec<Op> = (1..ncopies).map(|c| Op::Combine { from: c }).collect();
